@@ -326,6 +326,37 @@ def check_neurites(case, R):
     R.check(build.snapshot(t) == snap, "input-modified", f"get_neurites p={p}", "get_neurites:input-modified")
 
 
+def check_removal_sizes(case, R):
+    """Deep trees of EVERY size in a range (a propagation that reaches only so many levels, or a size-dependent strategy, fails in a
+    band of sizes): remove one node near the base / in the middle / near the tip and judge the survivors; also get_subtree there."""
+    from mc.props.c04 import big_tree
+    from swcgeom.core import cut_tree, get_subtree, to_subtree
+
+    kind, n = case[0], int(case[1])
+    p = big_tree(kind, n) if n > 2 else ([-1] + [0] * (n - 1))
+    R.state(kind, n)
+    # plain tagged geometry (the tie-free bank is only built for a dozen points)
+    t = build.make_tree(p, xyz=[(float(i), 0.5 * i, -0.25 * i) for i in range(n)], r=[0.5 + 0.25 * (i % 7) for i in range(n)],
+                        extra={"tag": np.arange(n, dtype=np.float64) + 500})
+    snap = build.snapshot(t)
+    spots = sorted({1, max(1, n // 2), max(1, n - 2)} & set(range(1, n)))
+    for k in spots:
+        removed = ref.closure_removed(p, [k])
+        want = set(range(n)) - removed
+        mapping = []
+        ok, out = R.impl("to_subtree", lambda: to_subtree(t, [k], out_mapping=mapping))
+        if ok:
+            judge(R, f"to_subtree([{k}]) on {kind} of {n}", p, t, out, want, 0, mapping, klass="to_subtree:size-sweep")
+        ok, out = R.impl("cut_tree(leave)", lambda: cut_tree(t, leave=lambda nd, cv: (None, int(nd.id) == k)))
+        if ok:
+            judge(R, f"cut_tree(leave: id == {k}) on {kind} of {n}", p, t, out, want, 0, klass="cut_tree:leave:size-sweep")
+        ok, out = R.impl("get_subtree", get_subtree, t, k)
+        if ok:
+            judge(R, f"get_subtree({k}) on {kind} of {n}", p, t, out, set(ref.descendants_or_self(p, k)), k, klass="get_subtree:size-sweep")
+    R.check(build.snapshot(t) == snap, "input-modified", f"size sweep {kind} {n}", "cut:input-modified")
+    R.outcome(kind, n // 16)
+
+
 def spaces(tier, seed):
     q = tier == "quick"
     st_hi = 7 if q else 8
@@ -365,7 +396,17 @@ def spaces(tier, seed):
                 for ct in itertools.product((1, 2, 3, 4), repeat=k):
                     yield (p, ct)
 
+    size_hi = 150 if q else 400
+
+    def gen_sizes():
+        for n in range(2, size_hi + 1):
+            for kind in ("chain", "revchain", "comb", "broom"):
+                yield (kind, n)
+
     out = [
+        Space.of("removal-size-sweep", gen_sizes, check_removal_sizes,
+                 bounds={"sizes": f"every n in 2..{size_hi}", "shapes": ["chain", "chain numbered from the far end", "comb", "broom"],
+                         "removed": "one node near the base, in the middle, near the tip"}),
         Space.of("get_subtree", lambda: trees(st_hi, lt_hi), check_subtree, bounds={"ST_max": st_hi, "LT_max": lt_hi, "starts": "all", "mapping_kinds": 5}),
         Space.of("removal-sets-and-callbacks", lambda: trees(st_hi, lt_hi - 1 if q else lt_hi), check_removal,
                  bounds={"ST_max": st_hi, "LT_max": lt_hi - 1 if q else lt_hi, "removal_sets": "all subsets of non-root nodes", "callback_family": "id in S (enter, leave), depth>=D, height<=H"}),
